@@ -3,6 +3,7 @@ import StatimeModel.Model.WireDriver
 import StatimeModel.Model.PortDriver
 import StatimeModel.Model.Overlay
 import StatimeModel.Model.ServoDriver
+import StatimeModel.Model.Metrics
 /-
 model-driver: line protocol, ops in (stdin), canonical observations out (stdout).
 One output line per input line (multi-part outputs are joined with " ; ").
@@ -22,6 +23,8 @@ def stepLine (st : DState) (line : String) : DState × String :=
   | "OVL" :: rest =>
     let (o, out) := ovlLine st.ovl rest
     ({ st with ovl := o }, out)
+  | "MET" :: rest => (st, Metrics.metLine rest)
+  | "FMT" :: rest => (st, Metrics.fmtLine rest)
   | "FLT" :: rest =>
     let (f, out) := Servo.filtLine Servo.machine st.filt rest
     ({ st with filt := f }, out)
